@@ -310,6 +310,8 @@ type DiskFaults struct {
 	FiredRead   int
 	FiredWrite  int
 	OnRead      func(call int, f *os.File)
+	OnCreate    func(path string) // a destination file or directory is about to be created
+	Creates     int
 	OnWrite     func(call int, f *os.File)
 }
 
@@ -367,3 +369,32 @@ func FileWriteHook(f *os.File, p []byte) (int, error, bool) {
 
 // CurProc is the simulated process the calling goroutine belongs to (nil outside any).
 func CurProc() *Proc { return curProc() }
+
+// FsOpenFile / FsMkdirAll stand in for os.OpenFile / os.MkdirAll where the package creates destination entries:
+// a scheduling point, and a place where a scenario can make the disk slow.
+func FsOpenFile(path string, flag int, perm fs.FileMode) (*os.File, error) {
+	fsCreateHook(path)
+	return os.OpenFile(path, flag, perm)
+}
+
+func FsMkdirAll(path string, perm fs.FileMode) error {
+	fsCreateHook(path)
+	return os.MkdirAll(path, perm)
+}
+
+func fsCreateHook(path string) {
+	w := cur.Load()
+	if w == nil {
+		return
+	}
+	Yield("fs.create")
+	if w.Disk != nil {
+		w.mu.Lock()
+		w.Disk.Creates++
+		on := w.Disk.OnCreate
+		w.mu.Unlock()
+		if on != nil {
+			on(path)
+		}
+	}
+}
